@@ -6,6 +6,7 @@
 -/
 import ErgoProofs.Lemmas.ConcReach
 import ErgoProofs.Lemmas.StorageThm
+import ErgoProofs.Lemmas.PropsAux
 namespace Ergo
 open Proc
 
@@ -15,6 +16,16 @@ theorem C13_reader_sees_a_past_state {log0 : List Event} {ws : List (List Event 
     (h : Reachable (Sys.init log0 ws nr) s) (r : Nat) (seen : List Event)
     (hr : s.readers[r]? = some (.done seen)) : ∃ k, k ≤ s.commits.length ∧ seen = logAfter log0 s.commits k :=
   reader_sees_history h r seen hr
+
+/-- … hence a state satisfying every invariant (the reader can always replay it) -/
+theorem C13_reader_state_is_valid (log0 : List Event) (envs : List (Env × Sec)) (nr : Nat) (s : Sys)
+    (h : Reachable (Sys.init log0 (envs.map fun (es : Env × Sec) => secDecide es.1 es.2) nr) s)
+    (h0 : SecReach log0) (hok : ∀ es ∈ envs, SecOK es.1 es.2)
+    (hclock : ∀ (i p : Nat) (snap : List Event) (w : Write) (g : Graph), s.commits[i]? = some (p, snap, w) → replayRaw snap = .ok g →
+               ∀ es : Env × Sec, envs[p]? = some es → EnvOK g es.1)
+    (r : Nat) (seen : List Event) (hr : s.readers[r]? = some (.done seen)) :
+    ∃ g, replay seen = .ok g ∧ AllInv g :=
+  reader_state_valid log0 envs nr s h h0 hok hclock r seen hr
 
 /-- the ghost history is exactly the sequence of log values -/
 theorem C13_history_is_the_sequence_of_logs {log0 : List Event} {ws : List (List Event → Except CmdErr Write)} {nr : Nat} {s : Sys}
